@@ -201,7 +201,7 @@ class HoistSetupCallsIntoConditionals(RewritePattern):
             if (
                 isinstance(val, OpResult)
                 and val.owner.parent_block() is parent_block
-                and parent_block.get_operation_index(val.owner) > if_index
+                and parent_block.get_operation_index(val.owner) >= if_index
             ):
                 return
 
